@@ -26,20 +26,23 @@ def build_harness():
     return time.time() - t0
 
 
-def generate(name, constants, depth=None, simulate=None, simdepth=None, workers=4, seed=None, timeout=900):
+def generate(name, constants, depth=None, simulate=None, simdepth=None, workers=4, seed=None, timeout=900, per_state=False,
+             max_behaviours=None, sample_mod=1):
     """Behaviours (JSON strings) from MC_Store.tla driven as a generator."""
     wd = workdir('gen_' + name)
     cfg = os.path.join(wd, 'gen.cfg')
-    base = dict(MaxRes=2, MaxSets=1, MaxAnns=4, MaxData=3, MaxKeys=2, Depth=depth or simdepth or 3, Scenario='all',
-                Size='s', Prelude=0, Reads=[], DevShift=False)
+    base = dict(MaxRes=2, MaxSets=1, MaxAnns=4, MaxData=3, MaxKeys=2, Depth=depth if depth is not None else (simdepth if simdepth is not None else 3), Scenario='all',
+                Size='s', Prelude=0, Reads=[], DevShift=False, EmitAll=bool(per_state))
     base.update(constants)
-    write_cfg(cfg, constants=base, constraint='Bounded', invariants=['Emit'])
+    write_cfg(cfg, constants=base, constraint='Bounded', invariants=['Emit'], view='View' if per_state else None)
     r = run_tlc('MC_Store.tla', cfg, wd, workers=workers, simulate=simulate,
-                depth=(base['Depth'] + 8) if simulate else None, seed=seed, timeout=timeout)
+                depth=(base['Depth'] + 8) if simulate else None, seed=seed, timeout=timeout,
+                collect_replays=(max_behaviours or simulate * 8) if simulate else (max_behaviours or 10 ** 7),
+                sample_mod=sample_mod)
     v = violated(r['out'])
     if v:
         raise ToolError(f'generator {name}: unexpected violation {v}')
-    return behaviours_from_output(r['out']), r
+    return r['behaviours'], r
 
 
 def replay(name, behaviours, style=0, extra_env=None):
@@ -92,7 +95,7 @@ def validate(name, trace_path, nproc=8):
     with concurrent.futures.ThreadPoolExecutor(max_workers=nproc) as ex:
         for res in ex.map(_validate_one, [(fn, first, i, 'val_' + name) for i, (fn, first) in enumerate(chunks)]):
             results.append(res)
-    mismatches = []
+    agg = {}            # (props, fingerprint) -> aggregated mismatch (first occurrence kept in full, the rest counted)
     events = 0
     skipped = 0
     outofdomain = 0
@@ -107,13 +110,31 @@ def validate(name, trace_path, nproc=8):
         outofdomain += out.count('<<"OUTOFDOMAIN"')
         for ln, exp in parse_tlc_output(out):
             rec = json.loads(lines[ln - 1])
+            m = dict(line=first + ln - 1, rec=rec, exp=exp)
+            diffs = mismatch_diffs(m)
+            props = ','.join(sorted(attribute(m, diffs)))
+            fp = fingerprint(m, diffs)
+            a = agg.get((props, fp))
+            if a:
+                a['n'] += 1
+                continue
             i = ln - 1
             while i > 0 and not lines[i].startswith('{"ev":"Reset"'):
                 i -= 1
-            ops = [{'ev': json.loads(x)['ev'], 'a': json.loads(x)['a']} for x in lines[i + 1:ln]]
-            mismatches.append(dict(line=first + ln - 1, rec=rec, exp=exp, ops=ops, reset=json.loads(lines[i])['a']))
+            # replay needs the mutating prefix only (read-only events do not change the store) plus the rejected event
+            ops = []
+            for j in range(i + 1, ln):
+                x = json.loads(lines[j])
+                if j == ln - 1 or x['ev'] in MUTATING:
+                    ops.append({'ev': x['ev'], 'a': x['a']})
+            m.update(ops=ops, reset=json.loads(lines[i])['a'], diffs=diffs, props=props.split(','), fp=fp, n=1, direct=True)
+            agg[(props, fp)] = m
         os.remove(fn)
-    return mismatches, dict(events=events, skipped=skipped, outofdomain=outofdomain)
+    return list(agg.values()), dict(events=events, skipped=skipped, outofdomain=outofdomain)
+
+
+MUTATING = {'AddResource', 'AddDataset', 'AddKey', 'InsertData', 'Annotate', 'RemoveAnnotation', 'RemoveResource',
+            'RemoveDataset', 'RemoveData', 'RemoveKey', 'StripAnnotationIds', 'StripDataIds', 'ShrinkToFit'}
 
 
 # ---------------------------------------------------------------------------------------------
